@@ -377,6 +377,6 @@ def stages(tier):
         Enum('repetitions', _repeat_chunks, _repeat_cases,
              'small units (graphs, empty nodes, comments, conjunction items) repeated 2..1025 times in one input: counters, caches and limits'),
         Hyp('random', _random, 7000, 300000),
-        Fuzz('coverage-guided-bytes', 0, 3000000, decode=_fuzz_decode, seeds=corpus.test_strings(), dictionary=corpus.DICTIONARY, max_len=120),
-        Fuzz('coverage-guided-bytes-empty-corpus', 0, 1000000, decode=_fuzz_decode, seeds=None, dictionary=None, max_len=64, shards=8),
+        Fuzz('coverage-guided-bytes', 0, 1500000, decode=_fuzz_decode, seeds=corpus.test_strings(), dictionary=corpus.DICTIONARY, max_len=120),
+        Fuzz('coverage-guided-bytes-empty-corpus', 0, 500000, decode=_fuzz_decode, seeds=None, dictionary=None, max_len=64, shards=8),
     ]
